@@ -1,0 +1,10 @@
+// SPDX-FileCopyrightText: 2026 The Pion community <https://pion.ly>
+// SPDX-License-Identifier: MIT
+
+//go:build !verif
+
+package ice
+
+// verifTakeContact is a verification hook (build tag "verif"). Without the tag it
+// is a constant no-op: the connectivity-check loop is driven by its timer as usual.
+func verifTakeContact(*Agent, func()) bool { return false }
